@@ -288,3 +288,358 @@ def no_exit_before_yield_rule(run, f, rid):
             t = b.blocks[wit]["term"]
             what = "returns" if t["k"] == "return" else "can end in %s (line %s)" % (norm(t.get("callee") or "a non-returning call"), t.get("line"))
             run.fail(rid, nm + "/no-exit-before-yield", b.loc(t.get("line")), "%s %s after pushing its request and before the context switch: the coroutine then ends with a Return, which does not drain the queue, and the request is attributed to the next yield on the thread" % (nm, what))
+
+
+# ------------------------------------------------------------------ C19: who writes the per-descriptor limit tables
+LIMIT_TABLES = ("syscall::unix::SEND_TIME_LIMIT", "syscall::unix::RECV_TIME_LIMIT")
+LIMIT_WRITERS = {
+    # function -> operations it may perform, and why the value it writes is that descriptor's own
+    "syscall::unix::send_time_limit": {"insert"},       # lazy fill: getsockopt(fd) of the same fd
+    "syscall::unix::recv_time_limit": {"insert"},
+    "<syscall::unix::setsockopt::NioSetsockoptSyscall as syscall::unix::setsockopt::SetsockoptSyscall>::setsockopt": {"insert"},   # the value just set on fd
+    "<syscall::unix::close::NioCloseSyscall as syscall::unix::close::CloseSyscall>::close": {"remove"},                             # fd is gone
+}
+
+
+def limit_writers_rule(run, f, rid):
+    """The cached limit of a descriptor is a copy of what the kernel holds for THAT descriptor.  It is written by the lazy
+    fill (getsockopt on the same fd), by setsockopt (the value just set on the fd) and dropped by close; any other writer
+    -- an entry pre-filled for one descriptor from what is known about another, a bulk update -- puts a value there that
+    the kernel never held for it.  Writers found through a helper count for the functions the helper is entered from."""
+    from rules.common import owners, refers_to_static, callers_map
+    run.rule(rid, "the per-descriptor limit tables are written only by the lazy fill, by setsockopt and by close", floor=2, template="T9 (who-may-write)")
+    MUT = ("insert", "remove", "clear", "retain", "alter", "alter_all", "entry", "get_mut", "iter_mut", "remove_if", "shrink_to_fit")
+    for tbl in LIMIT_TABLES:
+        got = {}
+        for b in f.bodies:
+            if b.kind == "Promoted":
+                continue
+            du = None
+            for (x, t) in b.calls():
+                c = norm(t.get("callee") or "")
+                if c.startswith("dashmap::DashMap::") and c.rsplit("::", 1)[1] in MUT and t["args"]:
+                    du = du or DefUse(b)
+                    if refers_to_static(f, b, du, t["args"][0], tbl):
+                        got.setdefault(norm(b.npath.split("::{closure#", 1)[0]), set()).add(c.rsplit("::", 1)[1])
+        bad = {}
+        for fn, ops in got.items():
+            if fn in LIMIT_WRITERS:
+                if not ops <= LIMIT_WRITERS[fn]:
+                    bad[fn] = sorted(ops - LIMIT_WRITERS[fn])
+                continue
+            own = owners(f, fn, set(LIMIT_WRITERS))
+            if own and all(ops <= LIMIT_WRITERS[o] for o in own):
+                continue
+            roots = sorted(callers_map(f).get(fn, set()))[:3]
+            bad[fn] = sorted(ops) + ["entered from " + ", ".join(r.rsplit("::", 1)[-1] for r in roots)] if roots else sorted(ops)
+        key = tbl.rsplit("::", 1)[1] + "/writers"
+        if not got:
+            run.fail(rid, key, "core/src/syscall/unix/mod.rs", "no writer of %s found: the rule has nothing to judge" % tbl)
+        elif bad:
+            run.fail(rid, key, "core/src/syscall/unix/mod.rs", "%s is written outside the lazy fill / setsockopt / close: %s -- the entry of a descriptor then holds a value the kernel never held for it" % (tbl.rsplit("::", 1)[1], bad))
+        else:
+            run.ok(rid, key, {k.rsplit("::", 1)[-1]: sorted(v) for k, v in got.items()})
+
+
+# ------------------------------------------------------------------ C26: a published name is never re-bound
+BEANS = "common::beans::BeanFactory"
+BEAN_MAP_OPS = {
+    # publish only if absent
+    "dashmap::VacantEntry::insert": "publish", "dashmap::VacantEntry::insert_entry": "publish", "dashmap::Entry::or_insert_with": "publish",
+    "dashmap::Entry::or_insert": "publish", "dashmap::Entry::or_default": "publish", "dashmap::Entry::or_try_insert_with": "publish",
+    # look at / take out
+    "dashmap::DashMap::entry": "read", "dashmap::DashMap::get": "read", "dashmap::DashMap::get_mut": "read", "dashmap::DashMap::contains_key": "read",
+    "dashmap::DashMap::remove": "remove", "dashmap::DashMap::len": "read", "dashmap::DashMap::is_empty": "read", "dashmap::DashMap::new": "read",
+    "dashmap::DashMap::default": "read", "dashmap::Entry::key": "read", "dashmap::OccupiedEntry::get": "read", "dashmap::OccupiedEntry::key": "read",
+    # replace the value of a name that is already published
+    "dashmap::DashMap::insert": "rebind", "dashmap::OccupiedEntry::insert": "rebind", "dashmap::OccupiedEntry::replace_entry": "rebind",
+    "dashmap::Entry::insert": "rebind", "dashmap::Entry::insert_entry": "rebind", "dashmap::Entry::and_modify": "rebind", "dashmap::DashMap::alter": "rebind",
+    "dashmap::DashMap::alter_all": "rebind", "dashmap::DashMap::iter_mut": "rebind", "dashmap::OccupiedEntry::get_mut": "rebind",
+    "dashmap::OccupiedEntry::into_ref": "rebind", "dashmap::DashMap::retain": "rebind",
+}
+
+
+def no_rebind_rule(run, f, rid):
+    """One instance per name process-wide: once a name is published, users hold references to that object for good.  The bean
+    map may therefore publish a name only if it is absent (vacant-entry insert / or_insert_with); an operation that
+    replaces the value of an occupied name leaves earlier users on the old object and later ones on the new."""
+    run.rule(rid, "the bean map is written only by publish-if-absent operations (and remove); nothing replaces the value of a published name", floor=4, template="T9 (modelled operation table, fail closed)")
+    n = 0
+    for b in f.bodies:
+        if b.kind == "Promoted" or not b.npath.startswith(BEANS + "::"):
+            continue
+        for (x, t) in b.calls():
+            c = norm(t.get("callee") or "")
+            kind = None
+            if c.startswith("dashmap::"):
+                kind = BEAN_MAP_OPS.get(c, "unknown")
+            elif "RefMut as std::ops::DerefMut" in c or "RefMut as core::ops::DerefMut" in c:
+                kind = "rebind"
+            if kind is None:
+                continue
+            n += 1
+            key = norm(b.npath.split("::{closure#", 1)[0]).rsplit("::", 1)[1] + "/" + c.rsplit("::", 2)[-2] + "::" + c.rsplit("::", 1)[-1]
+            if kind == "rebind":
+                run.fail(rid, key, b.loc(t.get("line")), "%s replaces the value stored under a name that may already be published (%s): earlier users keep the old object, later lookups get the new one -- two instances of one named bean" % (b.npath.rsplit("::", 1)[1].split("::{")[0], c))
+            elif kind == "unknown":
+                run.fail(rid, key, b.loc(t.get("line")), "%s is not in the table of bean-map operations the rule models; classify it (publish-if-absent / read / remove / rebind)" % c)
+            else:
+                run.ok(rid, key, kind)
+    if not n:
+        run.fail(rid, "no-map-operation", "core/src/common/beans.rs", "no operation on the bean map found: the rule has nothing to judge")
+
+
+# ------------------------------------------------------------------ C24: with a current coroutine the handler always redirects
+def always_redirects_rule(run, f, rid):
+    """A fault the handler returns from without rewriting the context is re-executed: the same instruction faults again,
+    for ever (the thread hangs in a signal storm) or, with the default action restored, the process dies.  So the only way
+    out of the handler without the redirect is "no coroutine is current on this thread": every path from the entry to a
+    return passes the redirect or the None arm of current().  A filter in front of it (signal code, address range, fault
+    kind) takes some faults of a coroutine away from that path."""
+    from analysis.flow import variant_arms
+    run.rule(rid, "every path through the trap handler passes the redirect, unless no coroutine is current", floor=1, template="T1 (must-pass)")
+    h = need(run, rid, f, CO + "::trap_handler")
+    if h is None:
+        return
+    cfg = Cfg(h)
+    du = DefUse(h)
+    cur = find_calls(h, callee_is(CO + "::current"))
+    red = [x for (x, t) in h.calls() if (t.get("callee") is None and t.get("fnptr") is not None) or norm(t.get("callee") or "").endswith("::setup_trap_handler")]
+    if len(cur) != 1 or not red:
+        run.fail(rid, "trap_handler/always-redirects", h.loc(), "expected one current() test and the redirect in the handler (found %d / %d)" % (len(cur), len(red)))
+        return
+    va = variant_arms(h, cfg, du, cur[0][1]["dest"]["l"], cfg.after(cur[0][0]))
+    none_arm = va[0].get("None") if va else None
+    through = set(red) | ({none_arm} if none_arm is not None else set())
+    ok, wit = cfg.must_pass([0], through)
+    if ok:
+        run.ok(rid, "trap_handler/always-redirects", {"redirect_sites": len(red)})
+    else:
+        p = cfg.path(0, {wit}, avoid=through) or []
+        line = next((h.blocks[x]["term"].get("line") for x in reversed(p[:-1]) if h.blocks[x]["term"]["k"] == "switch"), None)
+        run.fail(rid, "trap_handler/always-redirects", h.loc(line), "the trap handler can return without redirecting although a coroutine may be current (a test near line %s leaves early): that fault is re-executed for ever instead of ending the coroutine with an error" % line)
+
+
+# ------------------------------------------------------------------ C21: the inner (de)registration always reaches the OS
+SEL = "net::selector::Selector"
+
+
+def inner_reaches_os_rule(run, f, rid):
+    """register / reregister / deregister are what add_*_event / del_*_event call AFTER they decided, from the interest
+    records, that the OS registration must change.  They themselves must not second-guess that from another table
+    (TOKEN_FD is dropped per token, so it says nothing about what the poller holds for the descriptor): every path through
+    them passes the poller call do_register / do_reregister / do_deregister."""
+    run.rule(rid, "Selector::register / reregister / deregister pass the poller call on every path", floor=3, template="T1 (must-pass)")
+    for nm in ("register", "reregister", "deregister"):
+        b = unit(run, rid, f, SEL + "::" + nm)
+        if b is None:
+            continue
+        cfg = Cfg(b)
+        os_ = [x for (x, t) in b.calls() if norm(t.get("orig") or t.get("callee") or "").endswith("::do_" + nm)]
+        if not os_:
+            run.fail(rid, nm + "/reaches-os", b.loc(), "%s no longer calls do_%s" % (nm, nm))
+            continue
+        ok, wit = cfg.must_pass([0], os_)
+        if ok:
+            run.ok(rid, nm + "/reaches-os", "every path passes do_%s" % nm)
+        else:
+            run.fail(rid, nm + "/reaches-os", b.loc(), "%s can return without calling do_%s: the records then say the descriptor is (de)registered while the poller was never told" % (nm, nm))
+
+
+# ------------------------------------------------------------------ C23: the hook runs the user callback only through maybe_grow_with
+def callback_only_via_grow_rule(run, fh, rid):
+    """The exported maybe_grow_stack exists to run `f(param)` with room to spare.  The only place it may call the user's
+    function pointer is the callback it hands to maybe_grow_with; a call anywhere else (a fallback when no segment could be
+    allocated, a fast path) runs the callback on whatever is left of the current stack."""
+    run.rule(rid, "hook::maybe_grow_stack calls the user function only inside the callback it passes to maybe_grow_with", floor=1, template="T9 (who-may-call)")
+    b = need(run, rid, fh, "maybe_grow_stack")
+    if b is None:
+        return
+    du = DefUse(b)
+    mg = [(x, t) for (x, t) in b.calls() if norm(t.get("callee") or "").endswith("Coroutine::maybe_grow_with")]
+    cbs = set()
+    for (x, t) in mg:
+        for a in t["args"]:
+            d = describe_val(b, du, a)
+            if d and d[0] == "closure":
+                cbs.add(d[1])
+    bodies = [b]
+    work = list(fh.closures_of(b))
+    while work:
+        c = work.pop()
+        bodies.append(c)
+        work.extend(fh.closures_of(c))
+    bad, good = [], 0
+    for body in bodies:
+        for (x, t) in body.calls():
+            if t.get("callee") is None and t.get("fnptr") is not None:
+                if body is not b and body.npath in cbs:
+                    good += 1
+                else:
+                    bad.append(t.get("line"))
+    if len(mg) != 1 or not cbs or not good:
+        run.fail(rid, "maybe_grow_stack/callback-only-via-grow", b.loc(), "expected one maybe_grow_with call whose callback calls the user function (found %d call(s), %d callback(s), %d call(s) of the function pointer inside)" % (len(mg), len(cbs), good))
+    elif bad:
+        run.fail(rid, "maybe_grow_stack/callback-only-via-grow", b.loc(bad[0]), "the user function is also called outside the callback handed to maybe_grow_with (line %s): on that path it runs on the current stack, without the room that was asked for" % bad[0])
+    else:
+        run.ok(rid, "maybe_grow_stack/callback-only-via-grow", {"callbacks": sorted(cbs)})
+
+
+# ------------------------------------------------------------------ C25: get / get_mut read the map on every path
+LOCAL = "coroutine::local::CoroutineLocal"
+LOOP = "net::event_loop::EventLoop"
+
+
+def local_get_consults_map_rule(run, f, rid):
+    """`get` returns the value most recently put under the key.  put/remove change the map; an answer taken from anywhere
+    else (a last-lookup cache, a copy) is only right until the next put, and then points at a freed box."""
+    run.rule(rid, "CoroutineLocal::get / get_mut look the key up in the map on every path", floor=2, template="T1 (must-pass, path by path)")
+    for nm in ("get", "get_mut"):
+        b = unit(run, rid, f, LOCAL + "::" + nm)
+        if b is None:
+            continue
+        look = {x for (x, t) in b.calls() if norm(t.get("callee") or "") in ("dashmap::DashMap::get", "dashmap::DashMap::get_mut", "dashmap::DashMap::entry")}
+        n_ex = bad = 0
+        for (pth, _c, sv) in PathWalker(b).walk(0, lambda bid, t: ("return",) if t["k"] == "return" else None):
+            if sv[0] != "return":
+                continue
+            n_ex += 1
+            if not any(x in look for x in pth):
+                bad += 1
+        if not run.paths(rid, nm + "/consults-map", b.loc(), n_ex):
+            continue
+        if bad:
+            run.fail(rid, nm + "/consults-map", b.loc(), "CoroutineLocal::%s can answer without looking the key up in the map (%d path(s)): after a put() of the same key it returns the previous, already freed value" % (nm, bad))
+        else:
+            run.ok(rid, nm + "/consults-map", {"paths": n_ex})
+
+
+# ------------------------------------------------------------------ C20: the event buffer polled into is fresh
+def fresh_events_rule(run, f, rid):
+    """Selector::select returns Ok WITHOUT touching the buffer when another thread is polling the same selector.  wait_just
+    then resumes whatever tokens the buffer holds: they must be none, so the buffer handed to select is created in this
+    very call (or cleared).  A buffer kept across calls replays the previous poll's events and resumes coroutines that now
+    wait for something else."""
+    from analysis.table import value_on_path
+    run.rule(rid, "the Events buffer wait_just polls into is created (or cleared) in the same call on every path", floor=1, template="T5 (provenance along each path)")
+    b = unit(run, rid, f, LOOP + "::wait_just")
+    if b is None:
+        return
+    du = DefUse(b)
+    sel = [(x, t) for (x, t) in b.calls() if norm(t.get("orig") or t.get("callee") or "").endswith("Selector::select") or norm(t.get("callee") or "").endswith("selector::Selector::select")]
+    if len(sel) != 1:
+        run.fail(rid, "wait_just/fresh-events", b.loc(), "expected one Selector::select call in wait_just (found %d)" % len(sel))
+        return
+    sx, stt = sel[0]
+    # the buffer: the local the `&mut events` argument borrows
+    root = None
+    for a in stt["args"][1:]:
+        l = a.get("p", {}).get("l")
+        for _ in range(6):        # `&mut *tmp`, `tmp = &mut events` (two-phase borrow): follow reborrows to the owned local
+            nxt = None
+            for (_b, _i, kind, s_) in du.defs.get(l, []):
+                if kind == "assign" and s_["rhs"]["k"] == "ref":
+                    pr = s_["rhs"]["p"]
+                    if not pr["proj"]:
+                        root = pr["l"]
+                    elif pr["proj"] == ["deref"]:
+                        nxt = pr["l"]
+            if root is not None or nxt is None:
+                break
+            l = nxt
+        if root is not None:
+            break
+    if root is None:
+        run.fail(rid, "wait_just/fresh-events", b.loc(stt.get("line")), "the buffer passed to select could not be identified")
+        return
+    tls = [s_ for blk in b.blocks for s_ in blk["stmts"] if s_["k"] == "assign" and s_["rhs"]["k"] == "tlsref"]
+    n_ex = bad = 0
+    for (pth, _c, sv) in PathWalker(b).walk(0, lambda bid, t: ("select",) if bid == sx else None):
+        if sv[0] != "select":
+            continue
+        n_ex += 1
+        v = value_on_path(b, pth, local=root)
+        fresh = bool(v) and v[0] == "call" and norm(v[1] or "").endswith(("Events::with_capacity", "Events::new"))
+        cleared = any(norm(b.blocks[x]["term"].get("callee") or "").endswith("Events::clear") for x in pth if b.blocks[x]["term"]["k"] == "call")
+        if not (fresh or cleared):
+            bad += 1
+    if not run.paths(rid, "wait_just/fresh-events", b.loc(), n_ex):
+        return
+    if bad:
+        run.fail(rid, "wait_just/fresh-events", b.loc(stt.get("line")), "on %d path(s) the buffer handed to select is not created in this call%s: when select returns without polling (another thread is in it) the events of an earlier poll are replayed and resume coroutines that wait for something else" % (bad, " (it comes from thread-local state)" if tls else ""))
+    else:
+        run.ok(rid, "wait_just/fresh-events", {"paths": n_ex})
+
+
+# ------------------------------------------------------------------ C22: the monitor re-examines its nodes at a fixed short cadence
+MON = "monitor::Monitor"
+
+
+def monitor_park_rule(run, f, rid):
+    """A SIGURG that lands while its target may not be preempted (system-call state, a nested coroutine) is ignored by the
+    handler; the node stays overdue and the monitor signals again on its next pass.  "Its next pass" must therefore come
+    within a fixed short time whatever the deadlines are: the park of monitor_thread_main is a compile-time constant of at
+    most one slice.  A park computed from the nearest deadline skips the retries (overdue nodes do not shorten it)."""
+    run.rule(rid, "the monitor thread parks for a constant of at most 10 ms between passes", floor=1, template="T5 (constant provenance)")
+    b = unit(run, rid, f, MON + "::monitor_thread_main")
+    if b is None:
+        return
+    du = DefUse(b)
+    bl = [(x, t) for (x, t) in b.calls() if norm(t.get("callee") or "").endswith("CondvarBlocker::block") or norm(t.get("callee") or "") in ("std::thread::sleep", "std::thread::park_timeout")]
+    if not bl:
+        run.fail(rid, "monitor_thread_main/park", b.loc(), "the monitor loop has no park between passes (expected CondvarBlocker::block)")
+        return
+    for (x, t) in bl:
+        d = describe_val(b, du, t["args"][-1])
+        ok = False
+        if isinstance(d, tuple) and d and d[0] == "call" and d[1].startswith("std::time::Duration::from_") and len(d[2]) == 1 and d[2][0][0] == "const":
+            try:
+                ns = int(d[2][0][1]) * {"from_secs": 10**9, "from_millis": 10**6, "from_micros": 10**3, "from_nanos": 1}[d[1].rsplit("::", 1)[1]]
+                ok = 0 < ns <= 10 * 10**6
+            except (ValueError, KeyError, TypeError):
+                ok = False
+        if ok:
+            run.ok(rid, "monitor_thread_main/park", {"duration": d[1].rsplit("::", 1)[1] + "(" + str(d[2][0][1]) + ")"})
+        else:
+            run.fail(rid, "monitor_thread_main/park", b.loc(t.get("line")), "the monitor thread parks for %s, which is not a constant of at most 10 ms: a coroutine whose first signal was ignored (system-call state, nested coroutine) is not signalled again in time, or ever" % (repr(d)[:160],))
+
+
+# ------------------------------------------------------------------ C18: the wrappers change the mode only through the two calls the pairing rule follows
+def mode_writers_rule(run, f, rid):
+    """C18-RESTORE pairs `set_non_blocking(fd)` (only when the caller had the descriptor blocking) with `set_blocking(fd)` on
+    every return, by name.  That pairing covers the property only if nothing else in a wrapper changes the mode: any other
+    function that reaches fcntl(F_SETFL) -- a re-arm after the wait, a helper that flips the flag -- writes the mode outside
+    the pairing, and a call that did not switch it on itself will not switch it off."""
+    from rules import nio
+    from rules.common import callers_map
+    run.rule(rid, "inside a wrapper the descriptor's mode is written only by set_non_blocking / set_blocking (the calls the restore pairing follows)", floor=17, template="T9 (who-may-write, transitive)")
+    # functions that reach fcntl(fd, F_SETFL, ..)
+    base = set()
+    for b in f.bodies:
+        if b.kind == "Promoted":
+            continue
+        for (x, t) in b.calls():
+            c = norm(t.get("callee") or "")
+            if (c == "libc::fcntl" or c.endswith("::fcntl")) and len(t["args"]) >= 2 and str(op_const(t["args"][1])) == "4":
+                base.add(norm(b.npath.split("::{closure#", 1)[0]))
+    if not base:
+        run.fail(rid, "no-mode-writer", "core/src/syscall/unix/mod.rs", "no function calling fcntl(fd, F_SETFL, ..) found: the rule has nothing to judge")
+        return
+    cm = callers_map(f)
+    W, work = set(base), list(base)
+    while work:
+        x = work.pop()
+        for c in cm.get(x, ()):
+            c = norm(c.split("::{closure#", 1)[0])
+            if c not in W and c.startswith("syscall::unix::") and "::Nio" not in c and not c.startswith("<"):
+                W.add(c)
+                work.append(c)
+    MODELLED = {"syscall::unix::set_non_blocking", "syscall::unix::set_blocking"}
+    for nm, b in sorted(nio.nio_bodies(f).items()):
+        ub = nio.unit(b)
+        other = sorted({norm(t.get("callee") or "") for (_x, t) in ub.calls() if norm(t.get("callee") or "") in W - MODELLED}
+                       | ({"fcntl(F_SETFL)"} if any((norm(t.get("callee") or "") == "libc::fcntl") and len(t["args"]) >= 2 and str(op_const(t["args"][1])) == "4" for (_x, t) in ub.calls()) else set()))
+        if other:
+            run.fail(rid, b.npath + "/mode-writers", b.loc(), "%s also changes the descriptor's mode through %s, outside the set_non_blocking/set_blocking pairing: a call that did not switch the mode itself leaves it switched" % (nm, [o.rsplit("::", 1)[-1] for o in other]))
+        else:
+            run.ok(rid, b.npath + "/mode-writers", "only set_non_blocking / set_blocking")
